@@ -25,6 +25,8 @@ structure St where
   idx : Nat := 0
   pre : List Addr := []
   miners : List Addr := []
+  /-- branch statistics: how often each outcome of a frame / transaction was produced by the model -/
+  counts : List (String × Nat) := []
 
 partial def parseAddrToks : List String → Option (Addr × List String)
   | "c" :: rest => do
@@ -131,6 +133,15 @@ def logsStr (ls : List Log) : String := joinWith ";" (ls.map Log.name)
 
 /-- what a receipt of the real block loop shows: error class, the result JSON's log list (successful
     transactions only), `receipt.Logs` -/
+def bump (cs : List (String × Nat)) (k : String) : List (String × Nat) :=
+  match cs with
+  | [] => [(k, 1)]
+  | (k', n) :: rest => if k' == k then (k', n + 1) :: rest else (k', n) :: bump rest k
+
+def countReceipt (cs : List (String × Nat)) (rc : Receipt) : List (String × Nat) :=
+  let cs := bump cs ("tx:" ++ errName rc.err)
+  rc.trace.foldl (fun acc e => bump acc ("frame:" ++ errName e.err)) cs
+
 def receiptStr (rc : Receipt) : String :=
   errName rc.err ++ " R[" ++ (if rc.err.isNone then logsStr rc.returned else "?") ++ "] G[" ++ logsStr rc.logs ++ "]"
 
@@ -144,7 +155,7 @@ def step (st : St) (line : String) : St × String :=
   | "reset" :: p13 :: p7 :: cbn :: accts =>
     match parseBool p13, parseBool p7, parseBool cbn with
     | some p13, some p7, some cbn =>
-      let st0 : St := { cfg := { p013 := p13, p007 := p7, createBumpsNonce := cbn } }
+      let st0 : St := { cfg := { p013 := p13, p007 := p7, createBumpsNonce := cbn }, counts := st.counts }
       match parseAccounts st0 accts with
       | some st1 => let st2 := finishCfg st1; (st2, st2.w.dump)
       | none => (st, "bad-op")
@@ -153,14 +164,14 @@ def step (st : St) (line : String) : St × String :=
     match h.toNat?, parseAddr origin, parseAddr tgt, v.toNat?, parseFrame toks with
     | some h, some o, some t, some v, some (f, []) =>
       let (w, rc) := execTx st.cfg restore st.idx st.w { hash := h, origin := o, kind := .call t, value := v, body := f }
-      ({ st with w := w, idx := st.idx + 1 },
+      ({ st with w := w, idx := st.idx + 1, counts := countReceipt st.counts rc },
         errName rc.err ++ " E[" ++ traceStr rc.trace ++ "] R[" ++ logsStr rc.returned ++ "] G[" ++ logsStr rc.logs ++ "] " ++ w.dump)
     | _, _, _, _, _ => (st, "bad-op")
   | "tx" :: h :: origin :: "create" :: v :: toks =>
     match h.toNat?, parseAddr origin, v.toNat?, parseFrame toks with
     | some h, some o, some v, some (f, []) =>
       let (w, rc) := execTx st.cfg restore st.idx st.w { hash := h, origin := o, kind := .create, value := v, body := f }
-      ({ st with w := w, idx := st.idx + 1 },
+      ({ st with w := w, idx := st.idx + 1, counts := countReceipt st.counts rc },
         errName rc.err ++ " E[" ++ traceStr rc.trace ++ "] R[" ++ logsStr rc.returned ++ "] G[" ++ logsStr rc.logs ++ "] " ++ w.dump)
     | _, _, _, _ => (st, "bad-op")
   | "rtx" :: h :: origin :: "call" :: tgt :: v :: toks =>
@@ -168,15 +179,17 @@ def step (st : St) (line : String) : St × String :=
     match h.toNat?, parseAddr origin, parseAddr tgt, v.toNat?, parseFrame toks with
     | some h, some o, some t, some v, some (f, []) =>
       let (w, rc) := execTx st.cfg restore st.idx st.w { hash := h, origin := o, kind := .call t, value := v, body := f }
-      ({ st with w := w, idx := st.idx + 1 }, receiptStr rc)
+      ({ st with w := w, idx := st.idx + 1, counts := countReceipt st.counts rc }, receiptStr rc)
     | _, _, _, _, _ => (st, "bad-op")
   | "rtx" :: h :: origin :: "create" :: v :: toks =>
     match h.toNat?, parseAddr origin, v.toNat?, parseFrame toks with
     | some h, some o, some v, some (f, []) =>
       let (w, rc) := execTx st.cfg restore st.idx st.w { hash := h, origin := o, kind := .create, value := v, body := f }
-      ({ st with w := w, idx := st.idx + 1 }, receiptStr rc)
+      ({ st with w := w, idx := st.idx + 1, counts := countReceipt st.counts rc }, receiptStr rc)
     | _, _, _, _ => (st, "bad-op")
   | ["rend"] => (st, st.w.dumpScratch)
+  | ["branchstats"] =>
+    (st, "branches " ++ joinWith " " ((sortDedup (st.counts.map (fun (k, n) => k ++ "=" ++ toString n)))))
   | ["fork", sched, h] =>
     -- the fork schedule / height the implementation runs the next block under; the model takes the flags
     -- it needs from the reset line
